@@ -1,0 +1,11 @@
+//go:build !verif
+
+// Package verifhook provides named hook points for external verification harnesses.
+// Without the build tag "verif" every call compiles to nothing.
+package verifhook
+
+// Enabled reports whether hooks are compiled in.
+const Enabled = false
+
+// Hit is a no-op without the verif build tag.
+func Hit(string, ...any) {}
